@@ -34,7 +34,7 @@ def check(run, repo, tier):
   r3_sorted_rows(run, w)
   r4_prepare(run, w)
   from ._extra import c20_adjustment_pairing
-  c20_adjustment_pairing(run, w, "C20-R5")
+  run.guard(c20_adjustment_pairing, run, w, "C20-R5")
 
 
 def _super_calls(fn, meth):
